@@ -400,7 +400,7 @@ func runE2E(r *rand.Rand, scenario int) {
 			f.mu.Unlock()
 			fc := zs(int64(e)) + "/" + zs(int64(node))
 			if x == 10 && r.Intn(3) == 0 {
-				return e2eReq{enc: "g=" + zs(12) + ":" + nm("grp"), msg: &heartbeat.Request{GroupID: "grp", MemberID: "m"}, fc: fc, feat: "heartbeat," + ff}
+				return e2eReq{enc: "g=" + zs(12) + ":" + nm("grp"), msg: &heartbeat.Request{GroupID: "grp", MemberID: "m"}, fc: fc, feat: "group,heartbeat," + ff}
 			}
 			if x == 10 {
 				return e2eReq{enc: "g=" + zs(13) + ":" + nm("grp"), msg: &leavegroup.Request{GroupID: "grp", MemberID: "m"}, fc: fc, feat: "group," + ff}
